@@ -114,6 +114,7 @@ fn eia_case(ctx: &mut Ctx, ik: &[u8; 16], count: u32, bearer: u32, dir: u32, len
 }
 
 pub fn run(ctx: &mut Ctx) {
+    super::zuc_state::run(ctx);
     for (n, ok) in rzuc::selftest() {
         ctx.selftest(&n, ok);
     }
